@@ -7,10 +7,99 @@ TRANSLATORS = ["enums", "defender", "dispatch"]
 COQ_FILES = ["Props/C16.v", "Obl/DispatchOk.v", "Obl/EnumsOk.v"]
 
 
+def long_session_probe(ctx):
+    """Depth of history: three agents (one of each role), save_trajectories on, many short episodes in ONE coordinator. After every
+    collective reset each agent's trajectory file must have grown by exactly one record - the episode just played (its actions) -
+    and a requested trajectory must be that episode too.  (The sessions followed by the model have a handful of episodes.)"""
+    import glob
+    import os
+    import shutil
+    import sys
+    import tempfile
+    sys.path[:0] = [CK.HARNESS]
+    import nsgenv
+    episodes = 400 if ctx.tier == "thorough" else 130
+    cfg = nsgenv.base_config("scenario1", save_trajectories=True, required_players=3)
+    A = cfg["coordinator"]["agents"]["Attacker"]
+    A["max_steps"] = 3
+    A["goal"]["known_data"] = {}
+    A["goal"]["known_hosts"] = ["1.1.1.1"]
+    cfg["coordinator"]["agents"]["Defender"]["goal"]["known_data"] = {"1.1.1.1": [["x", "y"]]}
+    import copy
+    cfg["coordinator"]["agents"]["Benign"] = {
+        "goal": dict(copy.deepcopy(nsgenv.EMPTY_PART), description="none", is_any_part_of_goal_random=False, known_data={"1.1.1.1": [["x", "y"]]}),
+        "start_position": dict(copy.deepcopy(nsgenv.EMPTY_PART), controlled_hosts=["192.168.2.2"])}
+    os.makedirs(nsgenv.BUILD, exist_ok=True)
+    wd = tempfile.mkdtemp(prefix="c16long_", dir=nsgenv.BUILD)
+    old = os.getcwd()
+    os.chdir(wd)
+    stats = {"episodes": 0, "records_checked": 0}
+    replay = {"kind": "long_session", "episodes": episodes}
+    d = None
+    try:
+        d = nsgenv.start(cfg)
+        agents = [(("10.6.0.1", 1), "mallory", "Attacker"), (("10.6.0.2", 2), "dave", "Defender"), (("10.6.0.3", 3), "bob", "Benign")]
+        for a, nm, role in agents:
+            d.connect(a)
+        d.settle()
+        for a, nm, role in agents:
+            d.send(a, nsgenv.join(nm, role)); d.settle()
+        for a, nm, role in agents:
+            d.new_output(a)
+        fd = nsgenv.msg("FindData", source_host=nsgenv.ip("192.168.2.2"), target_host=nsgenv.ip("192.168.2.2"))
+        for ep in range(1, episodes + 1):
+            nact = {"mallory": ep % 3, "dave": (ep // 2) % 2, "bob": ep % 2}
+            for a, nm, role in agents:
+                for _ in range(nact[nm]):
+                    d.send(a, fd); d.settle(); d.new_output(a)
+            want = {nm: (ep + i) % 3 == 0 for i, (a, nm, role) in enumerate(agents)}
+            for a, nm, role in agents:
+                d.send(a, nsgenv.msg("ResetGame", request_trajectory=str(want[nm]))); d.settle()
+            for a, nm, role in agents:
+                outs = [json.loads(r[:-3].decode()) for r in d.new_output(a)]
+                done = [o for o in outs if "RESET_DONE" in str(o.get("status"))]
+                if len(done) != 1:
+                    ctx.violations.append({"key": "collective reset not confirmed in a long session", "what": f"episode {ep}: {nm} got {len(done)} RESET_DONE answers; task errors {d.task_errors[:1]}", "replay": replay})
+                    return
+                lt = done[0]["message"].get("last_trajectory")
+                if want[nm] and (lt is None or len(lt["trajectory"]["actions"]) != nact[nm]):
+                    ctx.violations.append({"key": "requested trajectory is not the episode just played", "what": f"episode {ep}: {nm} played {nact[nm]} action(s), the handed-out trajectory has {None if lt is None else len(lt['trajectory']['actions'])}", "replay": replay})
+                files = glob.glob(os.path.join(wd, "trajectories", f"*_{nm}_{role}.jsonl"))
+                recs = [json.loads(l) for f in files for l in open(f) if l.strip()]
+                stats["records_checked"] += 1
+                if len(recs) != ep:
+                    ctx.violations.append({"key": "a reset did not append exactly one record per agent", "what": f"after reset number {ep} the trajectory file of {nm} ({role}) holds {len(recs)} record(s) (every reset appends the episode just played by each agent in the game, nothing else writes)", "replay": replay})
+                    return
+                if len(recs[-1]["trajectory"]["actions"]) != nact[nm]:
+                    ctx.violations.append({"key": "the appended record is not the episode just played", "what": f"episode {ep}: {nm} played {nact[nm]} action(s), the record appended has {len(recs[-1]['trajectory']['actions'])}", "replay": replay})
+                    return
+            stats["episodes"] = ep
+        if d.task_errors:
+            ctx.violations.append({"key": "task died in the long session", "what": str(d.task_errors[:1]), "replay": replay})
+    except Exception as e:
+        import traceback
+        ctx.stage_errors.append(("long session probe", f"{type(e).__name__}: {e}\n{traceback.format_exc()[-600:]}"))
+    finally:
+        if d is not None:
+            d.close()
+        os.chdir(old)
+        shutil.rmtree(wd, ignore_errors=True)
+        ctx.coverage["long_session_probe"] = stats
+
+
 def correspondence(ctx):
-    n = 400 if ctx.tier == "thorough" else 44
+    n = 400 if ctx.tier == "thorough" else 50
     CC.run_sessions(ctx, "C16", n, lambda rng: dict(n_events=rng.choice([40,70]), burst=0.3, fault=0.05, bad=0.05, resets=0.25), lambda rng: dict(save=rng.random()<0.6, max_steps=rng.choice([1,2,3,5])), scale=True)
+    long_session_probe(ctx)
 
 
 def replay(ctx, payload):
+    if payload.get("kind") == "long_session":
+        c2 = CK.Ctx("C16", "quick", 1)
+        long_session_probe(c2)
+        for v in c2.violations:
+            print(v["what"])
+        if c2.violations:
+            print("VIOLATION property=C16 replay=(this file)")
+        return 1 if c2.violations else 0
     return CC.replay_session(ctx, "C16", payload)
